@@ -82,6 +82,7 @@ PROPS = {
             "note": "Trusted: Lean kernel + standard axioms, harness/generators/comparer, driver glue and the independent template recognisers of the predicate. 'Template instance is reported as its type' for P2PK/multisig/inscription is decided by the correspondence predicate, not yet by a theorem (partial for that clause).",
         },
         "generators": ["C14"],
+        "gen_obligations": ["index_sites_reviewed_bscript"],
         "thorough_seeds": 2,
         "rule": "all byte strings of length <= 2 (quick) / 3-byte sweep (thorough); instances of the five standard templates and, for each, every single-byte mutation, special-byte substitution, truncation, byte removal and part replacement by zero-length PUSHDATA1/2/4, OP_0, truncated push or nothing; zero-length PUSHDATA forms in every position of short part sequences; 13+-part sequences of empty parts; random strings. Non-trivial = script of >= 2 bytes.",
         "nontrivial": lambda op, impl: len(op.partition(" ")[2]) >= 4,
@@ -134,7 +135,7 @@ PROPS = {
         },
         "generators": ["C09"],
         "thorough_seeds": 1,
-        "gen_obligations": ["chunk_matches_source"],
+        "gen_obligations": ["chunk_matches_source", "index_sites_reviewed_bt"],
         "rule": "every truncation of standard and extended serialisations of seed transactions through NewTxFromStream and a one-byte reader; bit flips (isolated); every truncation of inputs and outputs; crafted prefixes: script lengths, input/output/tx counts and extended previous-script lengths claiming {0xfd, 2^16-1, 2^16, 2^20, 2^31, 2^32-1, 2^32, 2^40, 2^62, 2^63, 2^63+1, 2^64-1} with 0/1/7/64 bytes following, minimal and 9-byte varints, through five entry points; random bytes; node-JSON shapes with absent/null/bad-hex fields; 34 JSON atoms x 2 nestings x 9 JSON entry points. Non-trivial = op on >= 5 bytes of input.",
         "nontrivial": lambda op, impl: len(op) >= 24,
         "trusted_base": COMMON_TB + ["runtime.MemStats as the allocation measure"],
